@@ -684,3 +684,23 @@ def all_valid_names(t):
 def list_prefix_same(a, b, n):
     """the first n elements of a are (identical to or equal to) the first n elements of b"""
     return len(a) >= n and len(b) >= n and all(x is y or x == y for x, y in zip(list(a)[:n], list(b)[:n]))
+
+
+@primitive
+def module_value(path):
+    """the module-level object at a dotted path (memo tables: their representation invariant is stated over it)"""
+    import importlib
+    modname, _, attr = path.rpartition(".")
+    return getattr(importlib.import_module(modname), attr)
+
+
+def key_cache_ok(cache):
+    """representation invariant of keys._key_cache: only the 30 keys, each mapped to its note list"""
+    return all([is_key(k) and list(cache[k]) == key_notes(k) for k in cache])
+
+
+def chord_cache_ok(cache, sevenths):
+    """representation invariant of chords._triads_cache / _sevenths_cache: only the 30 keys, each mapped to the seven
+    diatonic chords of that key"""
+    return all([is_key(k) and [list(c) for c in cache[k]] == (diatonic_sevenths(k) if sevenths else diatonic_triads(k))
+                for k in cache])
